@@ -304,6 +304,30 @@ pub fn gen_session(seed: u64, index: u64, c: &Corpus) -> Session {
     }
     r.shuffle(&mut reqs);
     reqs.truncate(len.max(probes.len() * 2));
+    // aftershocks: right after a fault request, ask for a healthy expansion of the same derive
+    // (state left behind by a failed expansion is most likely to hit its own kind)
+    let mut i = 0;
+    while i < reqs.len() {
+        let k = reqs[i].k;
+        if k >= fault_lo && k < fault_hi && r.chance(1, 2) {
+            let d = keys[k].derive.clone();
+            let cands: Vec<usize> = c.base.iter().enumerate().filter(|(_, b)| b.derive == d).map(|(n, _)| n).collect();
+            if !cands.is_empty() {
+                let pick = c.base[*r.pick(&cands)].clone();
+                let idx = match keys.iter().position(|x| *x == pick) {
+                    Some(p) => p,
+                    None => {
+                        keys.push(pick);
+                        keys.len() - 1
+                    }
+                };
+                let w = if r.chance(1, 2) { reqs[i].w } else { r.below(workers) };
+                reqs.insert(i + 1, Request { w, k: idx, mode: Mode::Catch });
+                i += 1;
+            }
+        }
+        i += 1;
+    }
 
     // process restarts: cut the stream at seeded points; nothing is durable
     let cuts = *r.pick(&[0usize, 0, 0, 1, 1, 2]);
@@ -585,14 +609,21 @@ pub fn minimise(ctx: &Ctx, refs: &RefCache, d: &Divergence, s: &Session, seed: u
             steps += 1;
         }
     }
-    // drop unused keys (renumber)
-    let mut used: Vec<usize> = sched.requests.iter().map(|r| r.k).collect();
-    used.sort();
-    used.dedup();
-    let remap: BTreeMap<usize, usize> = used.iter().enumerate().map(|(n, o)| (*o, n)).collect();
-    sched.keys = used.iter().map(|o| sched.keys[*o].clone()).collect();
-    for r in sched.requests.iter_mut() {
-        r.k = remap[&r.k];
+    // drop unused keys (renumber) — re-verified, since the size of the plan itself moves the heap
+    {
+        let mut c = sched.clone();
+        let mut used: Vec<usize> = c.requests.iter().map(|r| r.k).collect();
+        used.sort();
+        used.dedup();
+        let remap: BTreeMap<usize, usize> = used.iter().enumerate().map(|(n, o)| (*o, n)).collect();
+        c.keys = used.iter().map(|o| c.keys[*o].clone()).collect();
+        for r in c.requests.iter_mut() {
+            r.k = remap[&r.k];
+        }
+        if c != sched && fails(&c) {
+            sched = c;
+            steps += 1;
+        }
     }
     // 4. simpler environment
     let mut env_min = env.clone();
@@ -687,19 +718,22 @@ fn truncate(s: &str, n: usize) -> String {
     }
 }
 
-/// Re-run a replay file from scratch; true = the divergence reproduces.
+/// Re-run a replay file from scratch; true = the divergence reproduces. The verdict comes from the
+/// plan exactly as recorded (the plan's own size and the text dump move the heap, which address-
+/// dependent code can observe); a second run with text dump is informational only.
 pub fn replay(ctx: &Ctx, rp: &Replay) -> Result<(bool, Value), String> {
-    let mut sched = rp.sched.clone();
-    sched.dump_text = true;
-    let (obs, _) = run_child(ctx, &rp.env, &sched)?;
+    let (obs, _) = run_child(ctx, &rp.env, &rp.sched)?;
     let o = obs.get(rp.probe).ok_or("probe index out of range")?;
-    let key = &sched.keys[o.k];
+    let key = &rp.sched.keys[o.k];
     let (r, rt) = reference(ctx, key, true)?;
     let diverges = r.class != o.class || r.digest != o.digest;
+    let mut dump = rp.sched.clone();
+    dump.dump_text = true;
+    let text = run_child(ctx, &rp.env, &dump).ok().and_then(|(obs, _)| obs.get(rp.probe).and_then(|o| o.text.clone()));
     Ok((
         diverges,
         json!({"key": key, "expected": {"class": r.class, "digest": r.digest, "text": rt},
-               "observed": {"class": o.class, "digest": o.digest, "text": o.text}}),
+               "observed": {"class": o.class, "digest": o.digest, "text_of_a_second_run_with_dump": text}}),
     ))
 }
 
